@@ -33,6 +33,8 @@ import baize.wsgi.responses as WR
 import baize.wsgi.routing as WRT
 import baize.wsgi.staticfiles as WS
 
+from baize.exceptions import HTTPException
+
 from engine import report
 from engine.forksym import Engine, SInt, conc, cur, term_of
 from engine.reshim import ReShim, wrap_pattern
@@ -645,9 +647,67 @@ def job_reqbody(job) -> report.JobResult:
     return _run(job, eng, fn, Shims(), lambda m: {"chunks": [c.decode() for c in cur().path_notes.get("wire", [])]})
 
 
+def job_formcount(job) -> report.JobResult:
+    """multipart forms whose part count sits at the request accessors' built-in limit (Request.form takes no limit argument): both stacks
+    must agree on accept / 413 and on the items.  The part count and the ASGI message size are solver-decided choices over an enumerated list;
+    everything else is concrete -- this job is a differential RECIPE, not a symbolic exploration of the decoder (C01 / C15 do that)."""
+    import asyncio
+    eng = Engine(budget_s=600)
+    COUNTS = [1, 323, 324, 325, 400]
+
+    def run_both(count, msg):
+        boundary = b"bnd"
+        body = b"".join(b'--bnd\r\nContent-Disposition: form-data; name="f%d"\r\n\r\nv%d\r\n' % (i, i) for i in range(count)) + b"--bnd--\r\n"
+        ctype = "multipart/form-data; boundary=bnd"
+
+        class Inp:
+            def __init__(self):
+                self.pos = 0
+
+            def read(self, k=-1):
+                k = len(body) if k is None or k < 0 else k
+                out_ = body[self.pos:self.pos + k]
+                self.pos += len(out_)
+                return out_
+
+        def outcome(f):
+            try:
+                v = f()
+                return ("ok", [(k, x) for k, x in v.multi_items()])
+            except HTTPException as ex:
+                return ("http", ex.status_code)
+        wv = outcome(lambda: WQ.Request({"REQUEST_METHOD": "POST", "CONTENT_TYPE": ctype, "wsgi.input": Inp(), "QUERY_STRING": "", "CONTENT_LENGTH": str(len(body))}).form)
+        msgs = [body[i:i + msg] for i in range(0, len(body), msg)]
+
+        async def main():
+            it = iter([{"type": "http.request", "body": c, "more_body": i < len(msgs) - 1} for i, c in enumerate(msgs)])
+
+            async def receive():
+                return next(it)
+            return await AQ.Request({"type": "http", "method": "POST", "headers": [(b"content-type", ctype.encode())], "path": "/", "query_string": b""}, receive).form
+        try:
+            av = ("ok", [(k, x) for k, x in asyncio.run(main()).multi_items()])
+        except HTTPException as ex:
+            av = ("http", ex.status_code)
+        return wv, av
+
+    def fn():
+        e = cur()
+        count = COUNTS[e.choose(len(COUNTS), "count")]
+        msg = [4096, 100][e.choose(2, "msg")]
+        e.path_notes["parts"] = count
+        e.path_notes["asgi_message_bytes"] = msg
+        wv, av = run_both(count, msg)
+        if wv != av:
+            raise Fail("form-differs-between-stacks", f"{count} parts: wsgi {str(wv)[:60]} vs asgi {str(av)[:60]}")
+        if wv[0] == "ok" and len(wv[1]) != count:
+            raise Fail("form-items-lost", f"{len(wv[1])} of {count}")
+    return _run(job, eng, fn, Shims(), lambda m: {"parts": cur().path_notes.get("parts"), "asgi_message_bytes": cur().path_notes.get("asgi_message_bytes")})
+
+
 def jobs(tier: str):
     b = META["bounds"][tier]
-    out = []
+    out = [dict(name="reqbody/form-part-count-at-the-limit", family="formcount", recipe="form", weight=60)]
     for recipe in ("response", "text-bytes", "text-str", "html", "json", "redirect"):
         out.append(dict(name=f"resp/{recipe}/status", family="resp", recipe=recipe, what="status", weight=70))
         for n in range(0, b["text_chars"] + 1):
@@ -708,7 +768,7 @@ def jobs(tier: str):
 
 
 def run_job(job):
-    return {"resp": job_resp, "stream": job_stream, "file": job_file, "reqview": job_reqview, "apps": job_apps, "reqbody": job_reqbody}[job["family"]](job)
+    return {"resp": job_resp, "stream": job_stream, "file": job_file, "reqview": job_reqview, "apps": job_apps, "reqbody": job_reqbody, "formcount": job_formcount}[job["family"]](job)
 
 
 def replay(rec) -> int:
